@@ -107,6 +107,28 @@ def _train_case(c):
     return fails, n
 
 
+def _retrain_case(c):
+    """ONE Regression object is trained twice (different split and level range): the surpluses reported after the second training must
+    satisfy the normal equations of the SECOND problem on every component grid"""
+    key = {"training": "standard_retrained", "matrix": c["matrix"], "regularised": c["lambda"] != 0}
+    fails = []
+    op = _regression(c)
+    n = 0
+    for (pct, lmin, lmax) in c["trainings"]:
+        combi = op.train(pct, lmin, lmax)
+        for comp in combi.scheme:
+            lv = [int(x) for x in comp.levelvector]
+            coords = [[i / 2 ** l for i in range(2 ** l + 1)] for l in lv]
+            op.grid.numPoints = 2 ** np.array(lv) - 1
+            M_impl = op.build_C_matrix(lv) if c["matrix"] == "C" else None
+            fails += _normal_equation_failures(op, coords, op.surpluses[tuple(comp.levelvector)], c["lambda"], c["matrix"], M_impl, key,
+                                               "training %r, level %r" % ((pct, lmin, lmax), lv))
+            n += 1
+        if fails:
+            break
+    return fails, n
+
+
 def _opticom_case(c):
     key = {"training": "standard", "option": c["option"], "regularised": c["lambda"] != 0}
     op = _regression(c)
@@ -211,7 +233,7 @@ def _cmatrix_tree_case(c):
 
 def run_case(case):
     c = case["config"]
-    fn = {"train": _train_case, "opticom": _opticom_case, "adaptive": _adaptive_case, "C_uniform": _cmatrix_uniform_case,
+    fn = {"train": _train_case, "retrain": _retrain_case, "opticom": _opticom_case, "adaptive": _adaptive_case, "C_uniform": _cmatrix_uniform_case,
           "C_tree": _cmatrix_tree_case}[c["kind"]]
     fails, n = fn(c)
     return {"failures": fails, "canon": core.config_key(c), "outcome": (n, len(fails)), "nontrivial": True, "evals": n}
@@ -228,6 +250,9 @@ def cases(tier):
                         continue
                     for lmin, lmax in ((1, 1), (1, 2), (1, 3), (2, 3)) + (((1, 4), (2, 4)) if (d == 1 or not q) else ()):
                         out.append({"config": {"kind": "train", "d": d, "targets": targets, "lambda": lam, "matrix": matrix, "lmin": lmin, "lmax": lmax}})
+            for lam, matrix in ((0.0, "C"), (0.1, "I"), (0.1, "C")):
+                for trainings in ([[0.2, 1, 3], [0.4, 1, 4]], [[0.2, 1, 2], [0.2, 1, 3]], [[0.4, 2, 3], [0.2, 1, 3]], [[0.2, 1, 3], [0.2, 1, 3]]):
+                    out.append({"config": {"kind": "retrain", "d": d, "targets": targets, "lambda": lam, "matrix": matrix, "trainings": trainings}})
             for option in (1, 2, 3):
                 for lam in (0.0, 0.1):
                     for lmin, lmax in ((1, 2), (1, 3)):
@@ -265,7 +290,7 @@ def main(ctx):
         ctx.absorb(case, res, group=case["config"]["kind"])
     for i in (3, len(cs) // 3, len(cs) - 1):
         ctx.add_sample(cs[i])
-    ctx.bounds = {k: sum(1 for c in cs if c["config"]["kind"] == k) for k in ("train", "opticom", "adaptive", "C_uniform", "C_tree")}
+    ctx.bounds = {k: sum(1 for c in cs if c["config"]["kind"] == k) for k in ("train", "retrain", "opticom", "adaptive", "C_uniform", "C_tree")}
     return ctx.finish(
         rule="complete lattice d x targets x lambda x matrix x level range (standard training), x margin x max_evaluations (dimension-wise "
              "training), x Opticom option; smoothing matrices on every level vector <= L and on every tree (1D) / pair of trees (2D); "
